@@ -8,6 +8,7 @@ package simsync
 
 import (
 	"sync"
+	"sync/atomic"
 
 	"github.com/sassoftware/relic/v8/zz_verif/simhook"
 )
@@ -100,13 +101,26 @@ func (m *Mutex) Unlock() {
 type RWMutex struct {
 	m  sync.RWMutex
 	wq waitq
+	// writers is the number of Lock calls that are waiting: like the real
+	// RWMutex, a waiting writer keeps new readers out - which is what makes a
+	// recursive read lock a deadlock as soon as a writer arrives between the
+	// two RLocks.  (The cooperative protocol polls with TryLock, which the real
+	// mutex does not count as a waiting writer, hence the counter.)
+	writers atomic.Int32
 }
 
 func (m *RWMutex) Lock() {
-	acquire(simhook.W(), &m.wq, m.m.TryLock, m.m.Lock, "lock")
+	w := simhook.W()
+	if w == nil {
+		m.m.Lock()
+		return
+	}
+	m.writers.Add(1)
+	acquire(w, &m.wq, m.m.TryLock, m.m.Lock, "lock")
+	m.writers.Add(-1)
 }
 func (m *RWMutex) RLock() {
-	acquire(simhook.W(), &m.wq, m.m.TryRLock, m.m.RLock, "rlock")
+	acquire(simhook.W(), &m.wq, func() bool { return m.writers.Load() == 0 && m.m.TryRLock() }, m.m.RLock, "rlock")
 }
 func (m *RWMutex) TryLock() bool  { return m.m.TryLock() }
 func (m *RWMutex) TryRLock() bool { return m.m.TryRLock() }
